@@ -24,13 +24,17 @@ RULE = (
 )
 
 WORDS = ["{", "}", ":", ",", "[", "]", "0", "1", "255", "-1", "0x10", "0b1", "true", "false", "99999999999999999999", "AA", "BB", "zz", "{ }", "[0]:", "[9999]:", "#c\n", "\n", "1_000", "0x", "-"]
+# literals one or two past the limits of every C++ integer type the text reader decodes into
+LIMITS = [str(v + d) for b in (7, 8, 15, 16, 31, 32, 63, 64) for v in (2**b, -(2**b)) for d in (-2, -1, 0, 1, 2, 8, 9)] + ["0x%x" % (2**b + d) for b in (8, 16, 32, 64) for d in (-1, 0, 1)] + ["0b" + "1" * n for n in (8, 9, 32, 33, 64, 65)]
 
 
 def soup(rnd, names):
     toks = ["{"]
     for _ in range(rnd.randrange(1, 10)):
         k = rnd.random()
-        if k < 0.5 and names:
+        if k < 0.25 and names:
+            toks += [rnd.choice(names), ":", rnd.choice(LIMITS)]
+        elif k < 0.5 and names:
             toks += [rnd.choice(names), ":", rnd.choice(WORDS)]
         elif k < 0.7 and names:
             toks += [rnd.choice(names), ":", "{", rnd.choice(WORDS), ",", rnd.choice(WORDS), "}"]
@@ -73,6 +77,17 @@ def layout_case(seed, nbase, nprefix):
                     else:
                         script.append("U %d %s %s %s" % (si, b, soup(rnd, names).encode().hex(), pv))
                     meta.append((s.name, n < len(base)))
+        # text input at the limits of the C++ type each integer field is decoded into
+        ints = [g for f in s.fields for g in ([f] if not f.is_anon else f.anon) if g.typ is not None and not g.is_virtual and not g.typ.dims and g.typ.kind in ("UInt", "Int") and g.typ.bits]
+        if ints:
+            pv = " ".join(str(x) for x in C1.param_values(rnd, s))
+            zero = (bytes(maxlen + 1)).hex()
+            for g in rnd.sample(ints, min(len(ints), 3)):
+                c = next(w for w in (8, 16, 32, 64) if g.typ.bits <= w)
+                lim = 2 ** (c - 1) if g.typ.kind == "Int" else 2**c
+                for v in rnd.sample([lim, lim + 1, lim + 8, lim - 1, -lim - 1, -lim - 2, -lim], 3):
+                    script.append("U %d %s %s %s" % (si, zero, ("{ %s: %d }" % (g.name, v)).encode().hex(), pv))
+                    meta.append((s.name, False))
     return {"text": text, "header": r.header, "driver": src, "script": "\n".join(script) + "\n", "meta": meta, "kind": "layout"}
 
 
@@ -101,7 +116,7 @@ def run_group(ctx, stats, cases, tag):
         done = out.count("\nEND") + (1 if out.startswith("END") else 0)
         for j, line in enumerate(lines[: max(done, 0) + 1]):
             cmd = line.split(" ", 1)[0]
-            stats.case([c["text"], line], cmd in ("S", "U", "W", "C", "O") or (c.get("meta") and j < len(c["meta"]) and c["meta"][j][1]), [c["kind"] + ":" + cmd], sample={"module_head": c["text"][:200], "command": line[:200]} if j % 97 == 0 else None)
+            stats.case([c["text"], line], (cmd in ("S", "U", "W", "C", "O") or cmd.startswith("X")) or (c.get("meta") and j < len(c["meta"]) and c["meta"][j][1]), [c["kind"] + ":" + cmd], sample={"module_head": c["text"][:200], "command": line[:200]} if j % 97 == 0 else None)
         if rc != 0 or "runtime error" in err or "AddressSanitizer" in err:
             failing = lines[done] if done < len(lines) else "<after the last command>"
             what = "sanitizer"
